@@ -58,14 +58,17 @@ partial def interp (M : Sem (Option (List Goat.Num.Val))) : Nat → Stmt → Opt
       if M.cval c st then
         match interp M f b (M.ceff c st) with
         | some (.brk, st1) => some (.normal, st1)
+        | some (.ret, st1) => some (.ret, st1)
         | some (_, st1) => interp M f (.loop c b p) (M.act p st1)
         | none => none
       else some (.normal, M.ceff c st)
     | .forever b p =>
       match interp M f b st with
       | some (.brk, st1) => some (.normal, st1)
+      | some (.ret, st1) => some (.ret, st1)
       | some (_, st1) => interp M f (.forever b p) (M.act p st1)
       | none => none
+    | .ret n => some (.ret, M.act n st)
     | .swd d =>
       match interp M f d st with
       | some (.brk, st1) => some (.normal, st1)
@@ -85,7 +88,8 @@ partial def vmRun (code : Array Instr) : Nat → Nat → St Goat.Num.Val → Opt
     | none => some (some σ)
     | some i =>
       let jump (a : Int) : Nat := ((pc : Int) + a + 1).toNat
-      if i.op = "JUMP" then vmRun code f (jump i.a) σ
+      if i.op = "RETURN" then some (some σ)
+      else if i.op = "JUMP" then vmRun code f (jump i.a) σ
       else if i.op = "JUMPFALSE" ∨ i.op = "JUMPTRUE" then
         match σ.ops with
         | b :: rest =>
